@@ -73,32 +73,36 @@ Proof. unfold track. apply fold_left_app. Qed.
 
 Lemma split_at_ret_spec : forall l pre0 pre cl snap rest,
   split_at_ret l pre0 = Some (pre, cl, snap, rest) ->
-  exists mid id, pre = rev pre0 ++ mid /\ l = mid ++ ERet KStopWait cl id snap :: rest.
+  exists mid k id, (k = KStopWait \/ k = KShutdown) /\
+    pre = rev pre0 ++ mid /\ l = mid ++ ERet k cl id snap :: rest.
 Proof.
   induction l as [|e l IH]; intros pre0 pre cl snap rest H; simpl in H; [discriminate|].
   assert (Hrec : split_at_ret l (e :: pre0) = Some (pre, cl, snap, rest) ->
-                 exists mid id, pre = rev pre0 ++ mid /\ e :: l = mid ++ ERet KStopWait cl id snap :: rest).
-  { intros H'. destruct (IH _ _ _ _ _ H') as (mid & id & E1 & E2). exists (e :: mid), id.
-    simpl in E1. rewrite <- app_assoc in E1. simpl in E1. split; [exact E1|]. simpl. rewrite E2. reflexivity. }
+                 exists mid k id, (k = KStopWait \/ k = KShutdown) /\
+                   pre = rev pre0 ++ mid /\ e :: l = mid ++ ERet k cl id snap :: rest).
+  { intros H'. destruct (IH _ _ _ _ _ H') as (mid & k & id & Hk & E1 & E2). exists (e :: mid), k, id.
+    simpl in E1. rewrite <- app_assoc in E1. simpl in E1. split; [exact Hk|]. split; [exact E1|]. simpl. rewrite E2. reflexivity. }
   destruct e; try (apply Hrec; exact H).
   destruct k; try (apply Hrec; exact H).
-  inversion H; subst. exists [], id. split; [rewrite app_nil_r; reflexivity|reflexivity].
+  - inversion H; subst. exists [], KStopWait, id. split; [left; reflexivity|]. split; [rewrite app_nil_r; reflexivity|reflexivity].
+  - inversion H; subst. exists [], KShutdown, id. split; [right; reflexivity|]. split; [rewrite app_nil_r; reflexivity|reflexivity].
 Qed.
 
-(* Mon_C06 on an accepted log: whenever StopAndWait returned nil, the pipeline was drained at that
-   moment (nothing half-handled, every written record acked before the teardown of its source, acks a
-   prefix, stored position = last acked, every plugin torn down once) *)
+(* Mon_C06 on an accepted log: whenever StopAndWait - or the shutdown sequence StopAll, Wait, persister Wait -
+   returned nil, the pipeline was drained at that moment (nothing half-handled, every written record acked
+   before the teardown of its source, acks a prefix, stored position = last acked, every plugin torn down once) *)
 Theorem accepted_log_satisfies_mon_c06 : forall c l pre snap rest,
   accept c l = true -> split_at_ret l [] = Some (pre, RNil, snap, rest) ->
   drained (c_v1 c) (c_slow c) (c_nsrc c) snap (track c pre) = true.
 Proof.
   intros c l pre snap rest Ha Hs.
-  destruct (split_at_ret_spec _ _ _ _ _ _ Hs) as (mid & id & E1 & E2). simpl in E1. subst pre l.
-  assert (Ha' : accept c (mid ++ [ERet KStopWait RNil id snap]) = true).
+  destruct (split_at_ret_spec _ _ _ _ _ _ Hs) as (mid & k & id & Hk & E1 & E2). simpl in E1. subst pre l.
+  assert (Ha' : accept c (mid ++ [ERet k RNil id snap]) = true).
   { apply (accept_prefix_closed c _ rest). rewrite <- app_assoc. exact Ha. }
   destruct (accept_last c mid _ Ha') as [H1 H2].
-  cbn [tstep set_bad bad] in H2. rewrite H1 in H2. cbn [orb] in H2.
-  apply negb_false_iff in H2. exact H2.
+  destruct Hk as [Hk|Hk]; subst k;
+    cbn [tstep set_bad bad] in H2; rewrite H1 in H2; cbn [orb] in H2;
+    apply negb_false_iff in H2; exact H2.
 Qed.
 
 Corollary accepted_healthy_log_passes_mon_c06 : forall c l pre snap rest,
